@@ -65,6 +65,36 @@ Theorem C29_retry_closed_returns :
 Proof. exact closed_returns. Qed.
 Print Assumptions C29_retry_closed_returns.
 
+(* The snapshot (c.conn, c.connChanged) is ONE critical section: an invocation only ever
+   waits on the "replaced" channel of a connection that is dead ... *)
+Theorem C29_retry_waits_only_on_dead_connection :
+  forall es st g, run init es = Some st -> ph st = Waiting g -> is_dead st g = true /\ g <= cur_gen st.
+Proof. exact waits_only_on_dead. Qed.
+Print Assumptions C29_retry_waits_only_on_dead_connection.
+
+(* ... hence, while the client is open, it can always be woken: its channel is already
+   closed (a newer generation exists), or its connection is the current one, which the
+   reconnect loop replaces because it is dead. *)
+Theorem C29_retry_waiting_can_be_woken :
+  forall es st g, run init es = Some st -> ph st = Waiting g -> closed st = false ->
+    exists st', (run st [EWake] = Some st' \/ run st [EReplace; EWake] = Some st') /\ ph st' = Idle.
+Proof. exact waiting_can_be_woken. Qed.
+Print Assumptions C29_retry_waiting_can_be_woken.
+
+(* Why the atomicity matters: reading the connection and the channel in two critical
+   sections can pair the old dead connection with the channel of the current working
+   generation; that state (unreachable above) has no enabled step of the invocation or of the
+   reconnect loop -- the request is lost although a working primary connection exists.  The
+   harness searches for it on the real invokeConn/replaceConn (race-replace stress). *)
+Theorem C29_retry_split_snapshot_loses_wakeup :
+  forall st, ph st = Waiting (cur_gen st) -> is_dead st (cur_gen st) = false ->
+    closed st = false -> cancelled st = false ->
+    step st ESnapshot = None /\ step st ESend = None /\ step st ESendLost = None /\ step st EAck = None /\
+    (forall v, step st (EResult v) = None) /\ step st EObserveDead = None /\ step st EWake = None /\
+    step st EWakeClosed = None /\ step st EWakeCtx = None /\ step st EReplace = None.
+Proof. exact split_snapshot_state_is_stuck. Qed.
+Print Assumptions C29_retry_split_snapshot_loses_wakeup.
+
 (* non-vacuity: states of each hypothesis shape are reachable *)
 Example C29_shapes_reachable :
   (exists st, run init [ESnapshot; ESend; EKill 0] = Some st /\ ph st = OnConn 0 SentUnacked /\ is_dead st 0 = true /\ closed st = false) /\
